@@ -589,3 +589,21 @@ def bool_loop_form(ctx, fn):
         # returns false as soon as (c0 is tr0): all items satisfy the negation
         return ("all", st, c0 if not tr0 else simplify(("op", "Not", (c0,))))
     return ("any", st, c0 if tr0 else simplify(("op", "Not", (c0,))))
+
+
+def full_reservoir_facts(facts, selfp=("param", 1, "self")):
+    """On a path that refutes `i < k` the reservoir holds exactly k items (len = min(i, k): R18-length), so a test against
+    `reservoir.len()` is a test against k.  Takes and returns a list of (cond, truth); derived facts are appended."""
+    from ..terms import mk, subst_term
+    from ..guards import fv
+    fd = {repr(c): t for c, t in facts}
+    i_f, k_f = ("field", selfp, "i"), ("field", selfp, "k")
+    ln = ("call", "std::vec::Vec::len", (("field", selfp, "reservoir"),))
+    if fv(fd, mk("Lt", i_f, k_f)) is not False:
+        return list(facts)
+    out = list(facts)
+    for c, t in facts:
+        c2 = subst_term(c, {ln: k_f})
+        if c2 != c:
+            out.append((c2, t))
+    return out
